@@ -191,7 +191,7 @@ func runWallet(r *evid.Run, dir string, cs int64) {
 			continue
 		}
 		outs := []*wire.TxOut{wire.NewTxOut(rq.amt, dpk)}
-		var tx *wire.MsgTx
+		var tx, finalized *wire.MsgTx
 		var err error
 		published := false
 		before := ""
@@ -234,6 +234,28 @@ func runWallet(r *evid.Run, dir string, cs int64) {
 			_, err = f.W.FundPsbt(pkt, rq.scope, rq.minconf, rq.acct, rq.rate, rq.strategy)
 			if err == nil {
 				tx = pkt.UnsignedTx
+				// half of the funded packets are also signed by the wallet and extracted:
+				// the result is a wallet-signed transaction like any other
+				// (FinalizePsbt signs P2WKH, nested P2WKH and taproot inputs; what it does
+				// with a legacy P2PKH input is outside this property, DESIGN O-16)
+				legacy := false
+				for _, in := range tx.TxIn {
+					if c, ok := f.Coins[in.PreviousOutPoint]; ok && c.Scope == waddrmgr.KeyScopeBIP0044 {
+						legacy = true
+					}
+				}
+				if !legacy && rg.Intn(2) == 0 {
+					if ferr := f.W.FinalizePsbt(rq.scope, rq.acct, pkt); ferr == nil {
+						if ftx, xerr := psbt.Extract(pkt); xerr == nil {
+							r.Hit("psbt-finalized-and-extracted", 1)
+							finalized = ftx
+						} else {
+							log = append(log, fmt.Sprintf("  extract after FinalizePsbt: %v", xerr))
+						}
+					} else {
+						log = append(log, fmt.Sprintf("  FinalizePsbt: %v", ferr))
+					}
+				}
 			}
 		}
 		log = append(log, fmt.Sprintf("%v -> err=%v", rq, err))
@@ -300,6 +322,13 @@ func runWallet(r *evid.Run, dir string, cs int64) {
 				fail("c06:dry-run-changed-state", fmt.Sprintf("%v: before %s after %s", rq, before, after))
 				return
 			}
+		}
+		if finalized != nil {
+			if err := f.VerifyScripts(finalized); err != nil {
+				fail("c06:signature-invalid:psbt", fmt.Sprintf("%v: transaction extracted from the packet the wallet funded and finalized: %v", rq, err))
+				return
+			}
+			r.Hit("transactions-script-verified", 1)
 		}
 		if rq.kind == "send" || rq.kind == "send-picked" || rq.kind == "create" {
 			if err := f.VerifyScripts(tx); err != nil {
@@ -511,6 +540,7 @@ func main() {
 	r.Require("transactions-script-verified", 80)
 	r.Require("inputs-checked", 200)
 	r.Require("created-with-change-in-another-scope", 1)
+	r.Require("psbt-finalized-and-extracted", 3)
 	r.Require("ineligible-picks-refused:locked", 2)
 	r.Require("ineligible-picks-refused:leased", 2)
 	r.Require("ineligible-picks-refused:already-spent", 2)
